@@ -194,6 +194,7 @@ def _str_encode_proj(it, s, *a, **k):
 # uninterpreted models of libx_tools.  Semantics of the methods (non-MULTILINE):
 #     p.fullmatch(s) is not None  <=>  s in L(p)
 #     p.match(s)     is not None  <=>  s in L(p) . (\n)?      if p ends with $   (Python's $ also matches before a trailing \n)
+#                                      s in L(p)              if p ends with \Z
 #                                      s in L(p) . Sigma*     otherwise
 # The translation is cross-checked against `re` on all strings of length <= 4 over the pattern's alphabet by
 # props/C01.py (T2 check c01.regex_models).
@@ -276,6 +277,8 @@ def regex_language(pattern, flags=0):
         end = False
         if data and data[-1] == (C.AT, C.AT_END):
             data, end = data[:-1], True
+        elif data and data[-1] == (C.AT, C.AT_END_STRING):
+            data, end = data[:-1], "Z"   # \Z: end of string only, no trailing-newline tolerance
         out = (_seq_to_re(data, isinstance(pattern, bytes)), end)
     except Exception:
         out = None
@@ -297,7 +300,7 @@ def _exact_match(kind, pattern, flags):
             it.raise_(TypeError, "expected string or bytes-like object")
         if isinstance(s, SBytes) != isinstance(pattern, bytes):
             it.raise_(TypeError, "cannot use a string pattern on a bytes-like object")
-        if kind == "fullmatch":
+        if kind == "fullmatch" or end == "Z":
             hit = z3.InRe(s.t, R)
         elif end:
             # s in R.(\n)?  written as  s in R  or  (s ends with \n and s[:-1] in R): same language, propositionally simpler
@@ -504,7 +507,16 @@ def _o_upper(s):
 
 _TE_C = re.compile(rb"(?i)(?:(?:compress|deflate|gzip)[ \t]*,[ \t]*)?chunked\Z")
 _TE_P = re.compile(rb"(?i)(?:compress|deflate|gzip|identity)\Z")
-_CL_ACC = re.compile(rb"^(?:0|[1-9][0-9]*)$")
+
+
+def _o_cl_acc(s):
+    # the named predicate CLacc *is* "the real parse_content_length returns normally"
+    from mitmproxy.net.http.validate import parse_content_length
+    try:
+        parse_content_length(_l1b(s))
+        return True
+    except ValueError:
+        return False
 
 
 def _o_re_match(key, s):
@@ -535,7 +547,7 @@ _ORACLES = {
     "upper": _o_upper,
     "TEc": lambda s: _TE_C.match(_l1b(s)) is not None,
     "TEp": lambda s: _TE_P.match(_l1b(s)) is not None,
-    "CLacc": lambda s: _CL_ACC.match(_l1b(s)) is not None,
+    "CLacc": _o_cl_acc,
     "re_match": _o_re_match,
     "hex_lower": lambda n: "%x" % n if n >= 0 else "-%x" % -n,
     "int_parsable_nondigit": _o_int_ok,
